@@ -386,6 +386,13 @@ class ProvRecord(object):
             if value is not None:
                 return value
 
+        if isinstance(literal, Literal) and isinstance(literal.datatype, QualifiedName):
+            # make sure the namespace of the datatype is known to the bundle,
+            # otherwise the datatype cannot be written out (and read back)
+            datatype = self._bundle.valid_qualified_name(literal.datatype)
+            if datatype is not literal.datatype:
+                literal = Literal(literal.value, datatype, literal.langtag)
+
         # No conversion possible, return the original value
         return literal
 
